@@ -396,6 +396,78 @@ def search(spec, Ctl, fams):
     return {"found": False, "evaluations": total, "nontrivial": nontrivial, "known_seen": seen_kf}
 
 
+def queries(nodes):
+    """every read-only observation, mapped to labels"""
+    import anytree
+    from anytree import (LevelOrderGroupIter, LevelOrderIter, PostOrderIter, PreOrderIter, RenderTree, Resolver, Walker,
+                         ZigZagGroupIter)
+    from anytree.util import commonancestors, leftsibling, rightsibling
+    lab = lambda x: None if x is None else (x.label if hasattr(x, "label") else [lab(y) for y in x])
+    out = {}
+    for l, n in nodes.items():
+        o = {}
+        for a in ("parent", "children", "path", "ancestors", "root", "depth", "height", "is_leaf", "is_root", "siblings",
+                  "descendants", "leaves", "size"):
+            v = getattr(n, a)
+            o[a] = v if isinstance(v, (int, bool)) else lab(v)
+        o["rpath"] = lab(list(n.iter_path_reverse()))
+        for it in (PreOrderIter, PostOrderIter, LevelOrderIter, LevelOrderGroupIter, ZigZagGroupIter):
+            o[it.__name__] = lab(list(it(n)))
+            o[it.__name__ + "/2"] = lab(list(it(n, maxlevel=2)))
+        o["left"], o["right"] = lab(leftsibling(n)), lab(rightsibling(n))
+        o["render"] = [(r.pre, r.fill, lab(r.node)) for r in RenderTree(n)]
+        for l2, n2 in nodes.items():
+            try:
+                w = Walker().walk(n, n2)
+                o["walk:" + l2] = [lab(w[0]), lab(w[1]), lab(w[2])]
+            except anytree.WalkError:
+                o["walk:" + l2] = "WalkError"
+            o["common:" + l2] = lab(commonancestors(n, n2))
+            try:
+                o["get:" + l2] = lab(Resolver("label").get(n, "../" + l2))
+            except anytree.ResolverError as e:
+                o["get:" + l2] = type(e).__name__
+        out[l] = o
+    return out
+
+
+def diff_case(case, Ctl, fams):
+    outs = {}
+    for fam in ("NodeMixin", "LightNodeMixin"):
+        c = dict(case, family=fam)
+        r = run_case(c, Ctl, fams)
+        if not r["valid"]:
+            return {"valid": False}
+        # rebuild the post-state and ask every read-only query
+        nodes = build(fam, r["after"]["par"], r["after"]["ch"], fams)
+        outs[fam] = {"exception": r["exception"], "after": r["after"], "log": r["log"], "queries": queries(nodes),
+                     "changed": r["before"] != r["after"]}
+    a, b = outs["NodeMixin"], outs["LightNodeMixin"]
+    differs = [k for k in ("exception", "after", "log", "queries") if a[k] != b[k]]
+    return {"valid": True, "differs": differs, "NodeMixin": {k: a[k] for k in differs}, "LightNodeMixin": {k: b[k] for k in differs},
+            "nontrivial": a["changed"] or a["exception"] is not None}
+
+
+def diffsearch(spec, Ctl, fams):
+    N = spec.get("nodes", 3)
+    labels = ["n%d" % i for i in range(N)]
+    total = nontrivial = 0
+    for forest, order in forests(labels):
+        for call in calls(labels, [], spec.get("maxlen", 2)):
+            for fault in fault_plans(labels):
+                case = {"forest": forest, "order": order, "nonnode": [], "call": call, "fault": fault}
+                r = diff_case(case, Ctl, fams)
+                if not r["valid"]:
+                    continue
+                total += 1
+                nontrivial += 1 if r["nontrivial"] else 0
+                if r["differs"]:
+                    return {"found": True, "case": case, "result": r, "evaluations": total, "nontrivial": nontrivial}
+                if spec.get("max_cases") and total >= spec["max_cases"]:
+                    return {"found": False, "evaluations": total, "nontrivial": nontrivial, "truncated": True}
+    return {"found": False, "evaluations": total, "nontrivial": nontrivial}
+
+
 def main():
     Ctl, fams = make_classes()
     cmd = sys.argv[1]
@@ -409,6 +481,11 @@ def main():
     elif cmd == "search":
         spec = json.load(open(sys.argv[2]))
         print(json.dumps(search(spec, Ctl, fams), default=str))
+    elif cmd == "diffsearch":
+        print(json.dumps(diffsearch(json.load(open(sys.argv[2])), Ctl, fams), default=str))
+    elif cmd == "diffreplay":
+        case = json.load(open(sys.argv[2]))
+        print(json.dumps(diff_case(case.get("case", case), Ctl, fams), default=str))
     else:
         raise SystemExit("usage")
 
